@@ -711,6 +711,7 @@ type histBuilder struct {
 	res   []string
 	w     *realWorld
 	dead  bool
+	lastData string
 }
 
 func newHistBuilder() *histBuilder {
